@@ -37,6 +37,10 @@ class DropAddon:
             self.copy = message.take()
             region.circuit.send(self.copy)
             return None
+        if self.drop_next == "claim":
+            # claim the message by a truthy return alone (the common "return True to block" idiom)
+            self.drop_next = False
+            return True
         if self.drop_next == "droptake":
             # drop the original first, then send a copy made from the (now finalized) original
             self.drop_next = False
@@ -89,7 +93,7 @@ class Impl:
                 m = pe.ping(d, act["k"], reliable=act["rel"], acks=act["a1"], resent=act["resend"])
             else:
                 m = pe.packet_ack(d, act["k"], act["a2"], acks=act["a1"], resent=act["resend"])
-            self.addon.drop_next = {"drop": True, "take": "take", "droptake": "droptake", "fwdtake": "fwdtake"}.get(act["disp"], False)
+            self.addon.drop_next = {"drop": True, "take": "take", "droptake": "droptake", "fwdtake": "fwdtake", "claim": "claim"}.get(act["disp"], False)
             self.addon.seen = None
             self.addon.copy = None
             exc = env.deliver(m)
@@ -179,7 +183,7 @@ def _diff(act, obs, got):
     if ed != got["done"]:
         bad.append(("completed futures", ed, got["done"]))
     if act["n"] == "Send" and got["flags"] is not None:
-        want = {"finalized": True, "dropped": act["disp"] in ("drop", "take", "droptake")}
+        want = {"finalized": act["disp"] != "claim", "dropped": act["disp"] in ("drop", "take", "droptake")}
         if got["flags"] != want:
             bad.append(("message flags", want, got["flags"]))
     return bad
